@@ -5,6 +5,7 @@ import (
 	"crypto/cipher"
 	"encoding/json"
 	"fmt"
+	"hash"
 	"math/big"
 	"sort"
 	"strings"
@@ -45,8 +46,11 @@ type c10Op struct {
 	Repeat    bool    `json:"repeat,omitempty"`
 	Dec       bool    `json:"dec,omitempty"`
 	Same      bool    `json:"same,omitempty"`
-	SM2Op     string  `json:"sm2op,omitempty"` // Verify | ZA | DerivePublic | Sign
-	Cold      bool    `json:"cold,omitempty"`  // Seal/Open/Block: the call is made on an OS thread that never ran library code (seam S7)
+	SM2Op     string  `json:"sm2op,omitempty"`    // Verify | ZA | DerivePublic | Sign
+	Live      bool    `json:"live,omitempty"`     // Sum: on one of the scenario's two long-lived hash values (A selects it) instead of a fresh one
+	Reset     bool    `json:"reset,omitempty"`    // Sum on a long-lived hash value: Reset first
+	Scribble  bool    `json:"scribble,omitempty"` // the caller overwrites a result the library allocated for it (it owns it) before carrying on
+	Cold      bool    `json:"cold,omitempty"`     // Seal/Open/Block: the call is made on an OS thread that never ran library code (seam S7)
 }
 
 // catchOn is core.Catch around a call made on the current or on a cold thread.
@@ -100,14 +104,14 @@ const c10SysN = 3 * 10 * 4 * 2
 func (c10) Meta() core.Meta {
 	return core.Meta{
 		Level: "exploration",
-		Rule: "systematic: {Seal, Open, Sum} x 10 destination layouts (nil; len 0/5 with cap=len, spare<needed, ==needed, >needed; in-place with cap >= / < needed) x plaintext lengths {0,1,16,17} x {assembly, portable}; seeded: histories of <=14 operations on a shared pool (Seal, Open of earlier outputs incl. twice and corrupted copies, Sum(b), Encrypt/Decrypt with dst==src, SM2 Verify/ZA/DerivePublic/Sign) with layouts and length classes drawn per call. " +
+		Rule: "results the library allocates itself (dst = nil; digests, ZA values, signatures, derived keys) are adopted into the pool as the caller's memory, half of them overwritten by their owner, and must survive every later operation (Sum also on two long-lived hash values); systematic: {Seal, Open, Sum} x 10 destination layouts (nil; len 0/5 with cap=len, spare<needed, ==needed, >needed; in-place with cap >= / < needed) x plaintext lengths {0,1,16,17} x {assembly, portable}; seeded: histories of <=14 operations on a shared pool (Seal, Open of earlier outputs incl. twice and corrupted copies, Sum(b), Encrypt/Decrypt with dst==src, SM2 Verify/ZA/DerivePublic/Sign) with layouts and length classes drawn per call. " +
 			"non-trivial = an op used a non-nil destination, was repeated, or opened a corrupted copy; distinct = distinct (path, multiset of (op, dst class, length class), pool sharing shape)",
 		Components: map[string]string{"sm4 Seal/Open (amd64 assembly: sealAsm/openAsm, ensureCapacity)": "real", "crypto/cipher generic GCM over portable sm4 (path switch off)": "real",
 			"sm3 Sum": "real", "sm4 Encrypt/Decrypt": "real", "sm2 Verify/ZA/DerivePublic/Sign": "real", "allocator (dst layout, aliasing)": "stub (simulated placement)", "arm64 assembly": "not run",
 			"oracle": "the library's own dst=nil twin on private copies, executed before the perturbed call"},
 		Assumptions: []string{"inexact overlap of dst and input is outside the AEAD contract and never generated", "bytes of dst[len:cap] beyond the result are not judged", "pointer identity of the result is not required",
 			"for the in-place idiom the overlapped input is exempt from the unchanged-input invariant", "on Open failure only the error and the inputs are judged here (no-plaintext is C07)"},
-		FaultKinds: []string{"dst=nil", "dst=len0/cap=len", "dst=len>0/cap=len", "dst=*/spare<needed", "dst=*/spare==needed", "dst=*/spare>needed", "dst=inplace/cap>=needed", "dst=inplace/cap<needed", "repeat", "open-corrupted", "open-wrong-aad", "block-inplace", "thread:cold-call"},
+		FaultKinds: []string{"dst=nil", "dst=len0/cap=len", "dst=len>0/cap=len", "dst=*/spare<needed", "dst=*/spare==needed", "dst=*/spare>needed", "dst=inplace/cap>=needed", "dst=inplace/cap<needed", "repeat", "open-corrupted", "open-wrong-aad", "block-inplace", "thread:cold-call", "sum-on-long-lived-hash", "result-adopted", "result-overwritten-by-owner"},
 		ProbeNames: []string{"reused-spare-capacity", "reallocated", "open-twice", "empty-plaintext", "tail-1..15", "pool-buffer-shared>=2"},
 		StepUnit:   "library calls",
 	}
@@ -200,6 +204,7 @@ func (c10) Generate(idx int, r *core.Rand, tier string) core.Script {
 			op.Kind = "Sum"
 			op.Dst = genDst(w, 32, false)
 			op.Repeat = w.Chance(1, 4)
+			op.Live, op.Reset = th.Chance(1, 2), th.Chance(1, 6)
 		case k == 3:
 			op.Kind = "Block"
 			op.Dec = w.Chance(1, 2)
@@ -219,6 +224,7 @@ func (c10) Generate(idx int, r *core.Rand, tier string) core.Script {
 		if op.Kind == "Seal" || op.Kind == "Open" || op.Kind == "Block" {
 			op.Cold = th.Chance(1, 10)
 		}
+		op.Scribble = th.Chance(1, 2)
 		s.Ops = append(s.Ops, op)
 	}
 	return s
@@ -237,12 +243,14 @@ func (c10) Decode(raw json.RawMessage) (core.Script, error) {
 
 // pool is the set of live caller buffers with their snapshots.
 type pool struct {
-	names []string
-	bufs  map[string][]byte
-	snap  map[string][]byte
-	role  map[string]string
-	tag   map[string]int // for ciphertexts: tag size (to attribute damage to tag vs body)
-	uses  map[string]int
+	names                []string
+	bufs                 map[string][]byte
+	snap                 map[string][]byte
+	role                 map[string]string
+	tag                  map[string]int // for ciphertexts: tag size (to attribute damage to tag vs body)
+	uses                 map[string]int
+	adopted              []string
+	nAdopted, nScribbled int
 }
 
 func newPool() *pool {
@@ -270,6 +278,44 @@ func (p *pool) put(name, role string, b []byte) []byte {
 	return nb
 }
 
+// adopt registers a slice the library returned in memory it allocated itself (dst was
+// nil): from the moment of return it is the caller's like any other buffer - nothing the
+// library does later may change it, and the caller may write to it (scribble) without
+// any later call noticing. Only the len bytes are the result; at most 24 are kept.
+func (p *pool) adopt(name string, b []byte, scribble bool) {
+	if len(b) == 0 || len(b) > 4096 {
+		return
+	}
+	if scribble {
+		for i := range b {
+			b[i] = 0xa5 ^ byte(i*29)
+		}
+	}
+	if _, ok := p.bufs[name]; !ok {
+		p.names = append(p.names, name)
+	}
+	p.bufs[name], p.role[name] = b, "result"
+	p.nAdopted++
+	if scribble {
+		p.nScribbled++
+	}
+	p.snap[name] = append([]byte{}, b...)
+	p.adopted = append(p.adopted, name)
+	if len(p.adopted) > 24 {
+		old := p.adopted[0]
+		p.adopted = p.adopted[1:]
+		delete(p.bufs, old)
+		delete(p.snap, old)
+		delete(p.role, old)
+		for i, n := range p.names {
+			if n == old {
+				p.names = append(p.names[:i], p.names[i+1:]...)
+				break
+			}
+		}
+	}
+}
+
 // damaged returns the first pool buffer that differs from its snapshot.
 func (p *pool) damaged(exempt string) (name, role string, at int, ok bool) {
 	for _, n := range p.names {
@@ -278,6 +324,9 @@ func (p *pool) damaged(exempt string) (name, role string, at int, ok bool) {
 		}
 		b, s := p.bufs[n], p.snap[n]
 		full := b[:cap(b)]
+		if p.role[n] == "result" {
+			full = b // what lies behind a result the library allocated is not the caller's business
+		}
 		if len(full) != len(s) {
 			return n, p.role[n], -1, true
 		}
@@ -357,6 +406,8 @@ func (c10) Execute(sc core.Script, keep bool) *core.Result {
 		report("panic", "NewCipher/NewGCM", "key", pathName, "construction panicked: "+txt)
 	}
 	var kinds []string
+	var liveHash [2]hash.Hash
+	var liveData [2][]byte
 	checkPool := func(op, exempt, param string) {
 		if n, role, at, bad := pl.damaged(exempt); bad {
 			report("input-modified", op, role, param, fmt.Sprintf("%s changed the caller's %s buffer %s at byte %d (len %d, cap %d): %x -> %x", op, role, n, at, len(pl.bufs[n]), cap(pl.bufs[n]), pl.snap[n], pl.bufs[n][:cap(pl.bufs[n])]))
@@ -434,6 +485,11 @@ func (c10) Execute(sc core.Script, keep bool) *core.Result {
 					res.Probes["reallocated"]++
 				}
 				checkPool("Seal", exempt, param)
+				if op.Dst.Mode == "nil" && tagName == "" {
+					ret := append([]byte{}, out...)
+					pl.adopt(fmt.Sprintf("sealed@%d", i), out, op.Scribble)
+					return ret
+				}
 				return out[len(prefix):]
 			}
 			ctOut := do("")
@@ -549,6 +605,11 @@ func (c10) Execute(sc core.Script, keep bool) *core.Result {
 					// bytes behind the ciphertext are spare capacity of dst: not judged (DESIGN 5.2)
 				}
 				checkPool("Open", exempt, param)
+				if op.Dst.Mode == "nil" && tagName == "" && err == nil {
+					ret := append([]byte{}, out...)
+					pl.adopt(fmt.Sprintf("opened@%d", i), out, op.Scribble)
+					return ret, err
+				}
 				return out, err
 			}
 			o1, e1 := do("")
@@ -569,8 +630,29 @@ func (c10) Execute(sc core.Script, keep bool) *core.Result {
 			kinds = append(kinds, "Sum:"+dc)
 			p, txt, _, _ := core.Catch(func() {
 				h := sm3.New()
-				h.Write(msg)
-				twin := h.Sum(nil)
+				var twin []byte
+				if op.Live {
+					// one of two hash values that live as long as the scenario: results handed out
+					// earlier (and adopted into the pool) must survive everything done to it later
+					k := op.A % 2
+					if liveHash[k] == nil {
+						liveHash[k] = sm3.New()
+					}
+					h = liveHash[k]
+					if op.Reset {
+						h.Reset()
+						liveData[k] = nil
+					}
+					h.Write(msg)
+					liveData[k] = append(liveData[k], msg...)
+					t := sm3.New()
+					t.Write(liveData[k])
+					twin = t.Sum(nil)
+					res.Faults["sum-on-long-lived-hash"]++
+				} else {
+					h.Write(msg)
+					twin = h.Sum(nil)
+				}
 				dst := mkDst(op.Dst)
 				prefix := append([]byte{}, dst...)
 				out := h.Sum(dst)
@@ -579,6 +661,9 @@ func (c10) Execute(sc core.Script, keep bool) *core.Result {
 					report("wrong-result", "Sum", "dst", dc, fmt.Sprintf("Sum(b) != b || Sum(nil): %x", out))
 				} else if op.Dst.Mode == "fresh" && !bytes.Equal(dst, prefix) {
 					report("input-modified", "Sum", "dst-prefix", dc, "bytes of b changed")
+				}
+				if vio == nil && op.Dst.Mode == "nil" {
+					pl.adopt(fmt.Sprintf("digest@%d", i), out, op.Scribble)
 				}
 				if op.Repeat {
 					res.Faults["repeat"]++
@@ -645,6 +730,8 @@ func (c10) Execute(sc core.Script, keep bool) *core.Result {
 		res.Probes["pool-buffer-shared>=2"]++
 	}
 	sort.Strings(kinds)
+	res.Faults["result-adopted"] += pl.nAdopted
+	res.Faults["result-overwritten-by-owner"] += pl.nScribbled
 	res.Fingerprint = core.Fp(pathName, strings.Join(kinds, ","))
 	for k := range res.Faults {
 		if k != "dst=nil" {
@@ -671,6 +758,14 @@ func c10SM2(op c10Op, i int, pl *pool, log *core.Log, report func(class, op, rol
 	pe, pr, ps := put("e", "digest", e), put("r", "signature", ref.Pad32(rr)), put("s", "signature", ref.Pad32(ss))
 	id, msg := put("id", "id", r.Bytes(r.PickInt(0, 16, 33))), put("m", "message", r.Bytes(r.Len(120)))
 	name := "SM2." + op.SM2Op
+	// own: a result belongs to the caller from the moment it is returned. It is adopted into
+	// the pool (nothing may change it later) and, in half of the operations, overwritten
+	// by its owner; the copy taken before is what later results are compared with.
+	own := func(what string, b []byte) []byte {
+		keep := append([]byte{}, b...)
+		pl.adopt(fmt.Sprintf("%s-result@%d", what, i), b, op.Scribble)
+		return keep
+	}
 	p, txt, _, _ := core.Catch(func() {
 		switch op.SM2Op {
 		case "Verify":
@@ -688,13 +783,15 @@ func c10SM2(op c10Op, i int, pl *pool, log *core.Log, report func(class, op, rol
 			}
 		case "ZA":
 			z1, e1 := sm2.ZA(id, px, py)
+			z1 = own("za", z1)
 			z2, e2 := sm2.ZA(id, px, py)
 			log.Add("op%d ZA %s", i, core.Hex8(z1))
 			if !bytes.Equal(z1, z2) || (e1 == nil) != (e2 == nil) {
-				report("not-repeatable", name, "id", "inputs", "second ZA differs")
+				report("not-repeatable", name, "id", "inputs", "second ZA differs (the caller had overwritten the first result, which it owns)")
 			}
 		case "DerivePublic":
 			x1, y1, _ := sm2.DerivePublic(pPriv)
+			x1, y1 = own("x", x1), own("y", y1)
 			x2, y2, _ := sm2.DerivePublic(pPriv)
 			log.Add("op%d DerivePublic %s", i, core.Hex8(x1))
 			if !bytes.Equal(x1, x2) || !bytes.Equal(y1, y2) {
@@ -706,6 +803,7 @@ func c10SM2(op c10Op, i int, pl *pool, log *core.Log, report func(class, op, rol
 			ok2, _ := sm2.VerifyZa(px, py, za, msg, pr, ps)
 			c := rng.Content{TailSeed: op.NonceSeed}
 			r1, s1, _ := sm2.SignZa(rng.New(c, nil, nil), pPriv, za, msg)
+			r1, s1 = own("r", r1), own("s", s1)
 			r2, s2, _ := sm2.SignZa(rng.New(c, nil, nil), pPriv, za, msg)
 			log.Add("op%d VerifyZa %v %v SignZa %s", i, ok1, ok2, core.Hex8(r1))
 			if ok1 != ok2 || !bytes.Equal(r1, r2) || !bytes.Equal(s1, s2) {
@@ -748,6 +846,7 @@ func c10SM2(op c10Op, i int, pl *pool, log *core.Log, report func(class, op, rol
 		case "Sign":
 			c := rng.Content{TailSeed: op.NonceSeed}
 			r1, s1, _ := sm2.Sign(id, px, py, rng.New(c, nil, nil), pPriv, msg)
+			r1, s1 = own("r", r1), own("s", s1)
 			r2, s2, _ := sm2.Sign(id, px, py, rng.New(c, nil, nil), pPriv, msg)
 			log.Add("op%d Sign %s", i, core.Hex8(r1))
 			if !bytes.Equal(r1, r2) || !bytes.Equal(s1, s2) {
